@@ -4,6 +4,7 @@ import (
 	"fmt"
 	"runtime"
 	"sort"
+	"sync/atomic"
 	"time"
 )
 
@@ -89,6 +90,14 @@ type Explorer struct {
 	startHks []func(*Exec)
 }
 
+// PostExec, when set, contributes verdicts about the execution that just ended that do not come
+// from the scenario's oracle (the race-detector harvest of the -race build).
+var PostExec func(*Exec) []Violation
+
+// NoReconfirm lists signature prefixes whose violations are not re-run for confirmation (the race
+// detector reports each access pair once per process).
+var NoReconfirm []string
+
 var execStartHooks []func(*Exec)
 
 // OnExecStart registers a hook run by the driver before every execution (shims reset their ledgers).
@@ -145,6 +154,19 @@ func Explore(sc *Scenario, opt Options) *Report {
 	sort.Strings(keys)
 	for _, k := range keys {
 		f := e.found[k]
+		skip := false
+		for _, p := range NoReconfirm {
+			if len(k) >= len(p) && k[:len(p)] == p {
+				skip = true
+			}
+		}
+		if skip {
+			x := e.run(f.Choices, true, 1000, 1000, nil)
+			f.Trace = x.Trace
+			f.Log = logStrings(x.Log)
+			e.rep.Found = append(e.rep.Found, f)
+			continue
+		}
 		var first *Exec
 		ok := true
 		for i := 0; i < 3; i++ {
@@ -292,7 +314,11 @@ func (e *Explorer) account(x *Exec) {
 	if len(r.Samples) < 3 && (r.Execs == 1 || r.Outcomes[out] == 1) {
 		r.Samples = append(r.Samples, append([]string{fmt.Sprintf("choices=%v end=%s", x.choices, x.End)}, logStrings(x.Log)...))
 	}
-	for _, v := range e.sc.Check(x) {
+	verdicts := e.sc.Check(x)
+	if PostExec != nil {
+		verdicts = append(verdicts, PostExec(x)...)
+	}
+	for _, v := range verdicts {
 		f := e.found[v.Sig]
 		if f == nil {
 			f = &Found{Sig: v.Sig, Msg: v.Msg, Choices: append([]int32(nil), x.choices...), PB: x.pbUsed, DB: x.dbUsed}
@@ -338,7 +364,9 @@ func runExec(ex *Exec, body func()) {
 			t.wake = 1
 			runtime.Gosched()
 		}
+		atomic.LoadInt64(&t.fence) // acquire what the thread did (oracles read its results)
 	}
+	atomic.AddInt64(&execFence, 1) // release towards the threads of later executions
 	cur = nil
 	for i := len(ex.cleanups) - 1; i >= 0; i-- {
 		ex.cleanups[i]()
